@@ -1,4 +1,4 @@
-import TracklibVerif.Lemmas.TextIORow2
+import TracklibVerif.Lemmas.TextIONet
 /-! # C13 — tracks and networks written to file are read back unchanged
 
 Theorems about the model `TV.TextIO` (`Model/TextIO.lean`), which mirrors
@@ -77,6 +77,20 @@ theorem row_roundtrip (f : CsvFmt) (geo : Bool) (pf : List Tok) (naf : Nat) (r :
         if f.idT = -1 then epoch else project pf r.t⟩ :=
   TV.TextIO.row_roundtrip f geo pf naf r afs hv hsep hnl htime hnd
 
+/-- **T2 (file)** `csv_file_roundtrip`: under the hypotheses of `row_roundtrip` for every observation
+(`RowOK`), the text `writeToFile` produces (for any value of its `h` argument: on this tree the writer never
+emits the header it is asked for, `hdrEff`) is read back by `readFromCsv(..., h=0)` as the same number of
+observations in the same order, each equal to what was written (`expRow`); and a reader told `h=1` — the
+"matching" value when the writer was called with `h=1` — loses the first observation (the defect listed as
+`csv-header-not-written`). -/
+theorem csv_file_roundtrip (f : CsvFmt) (geo : Bool) (pf : List Tok) (h naf : Nat) (rows : List (Row × List Int))
+    (hv : ValidIds f) (hsep : numChar f.sep = false) (hnl : f.sep ≠ '\n') (htime : f.idT ≠ -1 → TimeOK pf f.sep)
+    (hrows : ∀ ra ∈ rows, RowOK f geo pf ra.1) :
+    ∃ text, writeToFile f geo pf h naf rows = .ok text ∧
+      readCsv f pf 0 text = .ok (rows.map (fun ra => expRow f geo pf ra.1)) ∧
+      (∀ ra rest, rows = ra :: rest → readCsv f pf 1 text = .ok (rest.map (fun ra => expRow f geo pf ra.1))) :=
+  TV.TextIO.csv_file_roundtrip f geo pf h naf rows hv hsep hnl htime hrows
+
 /-- **T3 `time_roundtrip`**: for a format made of distinct full-width codes (`2D 2M 4Y 2h 2m 2s 3z`,
 `Lossless`) and arbitrary literal characters, and a stamp whose fields fit their widths (`Fits`: four-digit
 year, …, which every well-formed `ObsTime` before year 10000 satisfies), reading what `__str__` printed
@@ -97,6 +111,41 @@ theorem fits_of_wf (t : Stamp) (h : WFs t) (hy : t.d.year < 10000) : Fits t := b
   have : monthDays t.d.year (t.d.month - 1) ≤ 31 := by
     unfold monthDays; split <;> (try split) <;> omega
   exact ⟨hy, by omega, by omega, by omega, by omega, by omega, hms⟩
+
+/-- **T4 `wkt_roundtrip`**: for a non-empty ENU/Geo track whose planimetric coordinates are `n / 10^d`
+(printed by `str(float)` as the decimal without trailing zeros, `reprDec`), `TrackReader.parseWkt(track.toWKT())`
+returns the same number of vertices in the same order, each with the coordinates written (`expVertex`:
+`float()` of the printed decimals, third coordinate 0). -/
+theorem wkt_roundtrip (d : Nat) (pts : List Pt) (hne : pts ≠ []) :
+    parseWkt (toWKT d pts) = .ok (pts.map (expVertex d)) :=
+  TV.TextIO.wkt_roundtrip d pts hne
+
+/-- the decimal read back from `str(n / 10^d)` has the value written: mantissa · 10^(d − decimals) = n -/
+theorem repr_value (d : Nat) (n : Int) :
+    parseDec? (reprDec d n) = some (reprVal d n) ∧ (reprVal d n).2 ≤ d ∧ (reprVal d n).1 * 10 ^ (d - (reprVal d n).2) = n :=
+  ⟨parseDec_reprDec d n, reprVal_value d n⟩
+
+/-- **T4 `network_row_roundtrip`**: the line `NetworkWriter.writeToCsv` writes for an edge
+(`id,source,target,orientation,"LINESTRING(...)"`), split by `csv.reader` with the same delimiter, gives the five
+fields, and `readLineAndAddToNetwork` rebuilds the edge: same identifiers, same end nodes, same orientation,
+same vertices (`expEdge`). Requires identifiers free of the delimiter, quote and end-of-line characters, an
+orientation among 0, 1, −1, at least two vertices, and a delimiter that is not a number character (`SepOK`). -/
+theorem network_row_roundtrip (sep : Char) (hs : SepOK sep) (hdr d : Nat) (e : NEdge) (he : EdgeOK sep e) :
+    netRow sep d e = edgeBody sep d e ++ ['\n'] ∧
+    csvRecord sep ((edgeBody sep d e).filter (fun c => c ≠ '\n' ∧ c ≠ '\r')) = [e.id, e.src, e.tgt, intStr e.orient, toWKT d e.geom] ∧
+    netReadRow ⟨0, 1, 2, 3, 4, sep, hdr⟩ [e.id, e.src, e.tgt, intStr e.orient, toWKT d e.geom] = .ok (expEdge d e) :=
+  ⟨netRow_eq sep d e, csvRecord_edgeBody sep hs d e he, netReadRow_record sep hdr d e he⟩
+
+/-- **T4 (network file)** `net_file_roundtrip`: a network written with its header line (`h=1`) and read with
+`header=1` gives back all edges in order, each equal to what was written; written without header (`h=0`) and
+read with `header=0` it comes back without its first edge, because the reader's header loop consumes one
+record before testing the count (the defect listed as `network-no-header-first-edge`). The node table of the
+result is `nodesOf` of these edges: identifiers in order of first appearance, each at the end vertex of the
+first edge that mentions it. -/
+theorem net_file_roundtrip (sep : Char) (hs : SepOK sep) (d : Nat) (es : List NEdge) (he : ∀ e ∈ es, EdgeOK sep e) :
+    netRead ⟨0, 1, 2, 3, 4, sep, 1⟩ (netWrite sep 1 d es) = .ok (es.map (expEdge d))
+    ∧ netRead ⟨0, 1, 2, 3, 4, sep, 0⟩ (netWrite sep 0 d es) = .ok (es.tail.map (expEdge d)) :=
+  TV.TextIO.net_file_roundtrip sep hs d es he
 
 /-! ### non-vacuity and the documented preconditions -/
 
@@ -126,5 +175,12 @@ time format is split, and the timestamp written last reads back as `ObsTime()` (
 `csv-separator-in-timestamp`). -/
 example : (readCsv ⟨0, 1, -1, 2, ' '⟩ (tokenize "2D/2M/4Y 2h:2m:2s".toList) 0 "1.000 2.000 31/01/2020 23:59:59\n".toList).toOption
     = some [⟨(1000, 3), (2000, 3), (0, 0), epoch⟩] := by decide +kernel
+
+/-- a network line and a WKT text -/
+example : netRow ',' 3 ⟨"e1".toList, "a".toList, "b".toList, -1, [(0, 0), (1500, -2250)]⟩
+    = "e1,a,b,-1,\"LINESTRING(0.0 0.0,1.5 -2.25)\"\n".toList := by decide +kernel
+example : SepOK ';' ∧ SepOK ' ' ∧ ¬ SepOK '-' := by unfold SepOK; decide
+example : EdgeOK ',' ⟨"e1".toList, "a".toList, "b".toList, -1, [(0, 0), (1500, -2250)]⟩ := by
+  unfold EdgeOK IdOK; decide
 
 end TV.C13
